@@ -66,6 +66,28 @@ impl Default for Monitor {
     }
 }
 
+thread_local! {
+    // set while this thread is inside `Monitor::submit` / `Monitor::remove`,
+    // i.e. while it may hold the lock of the notify set or of the blocker
+    static IN_MONITOR: Cell<bool> = const { Cell::new(false) };
+}
+
+/// Marks the current thread as being inside a monitor operation.
+struct InMonitor;
+
+impl InMonitor {
+    fn enter() -> Self {
+        IN_MONITOR.with(|f| f.set(true));
+        Self
+    }
+}
+
+impl Drop for InMonitor {
+    fn drop(&mut self) {
+        _ = IN_MONITOR.try_with(|f| f.set(false));
+    }
+}
+
 impl Monitor {
     fn get_instance<'m>() -> &'m Self {
         BeanFactory::get_or_default(MONITOR_BEAN)
@@ -74,6 +96,15 @@ impl Monitor {
     fn start(&self) -> std::io::Result<()> {
         #[cfg(unix)]
         extern "C" fn sigurg_handler(_: libc::c_int) {
+            // A coroutine that returns from a system call runs the listener - and
+            // with it `Monitor::submit` - on its own stack. Suspending it there
+            // would park it while it holds the lock of the notify set or of the
+            // blocker, and the next coroutine of this thread would wait for that
+            // lock for ever. Leave the thread alone: the node stays in the set, so
+            // the monitor signals again a millisecond later.
+            if IN_MONITOR.try_with(Cell::get).unwrap_or(true) {
+                return;
+            }
             if let Ok(mut set) = SigSet::thread_get_mask() {
                 //只抢占处于Running状态的协程。
                 //MonitorListener的设计理念是不对Syscall状态的协程发送信号。
@@ -350,6 +381,7 @@ impl Monitor {
     fn submit(timestamp: u64) -> std::io::Result<NotifyNode> {
         let instance = Self::get_instance();
         instance.start()?;
+        let _in_monitor = InMonitor::enter();
         cfg_if::cfg_if! {
             if #[cfg(unix)] {
                 let node = NotifyNode {
@@ -376,6 +408,7 @@ impl Monitor {
 
     fn remove(node: &NotifyNode) -> bool {
         let instance = Self::get_instance();
+        let _in_monitor = InMonitor::enter();
         instance
             .notify_queue
             .lock()
